@@ -69,5 +69,5 @@ def run(tier, seed, replay=None):
                      "written numbers compared with relative tolerance 5e-8 (the files carry 8-10 digits)",
                      "π enclosed in [3.141592653589793, 3.141592653589794]; the cosines of angular bin boundaries are computed by the harness (python math.cos)",
                      "trajectory reading: the harness writes .gro files and hands the model the doubles nearest to the decimal strings it wrote",
-                     "mean-force tables (force option), --begin times and grids whose range is not a multiple of the step are not generated"],
+                     "mean-force tables (force option) and --begin times are not generated"],
         trivial_tags=("skip-near-boundary",))
